@@ -228,6 +228,10 @@ def loadback_case(args):
         if stack is not None and s.sp != stack:
             why.append('sp %d != %d' % (s.sp, stack))
         diffs = [a for a in range(org, org + L) if mem[a] != data[a - org] and not (stack is not None and stack - 14 <= a < stack)]
+        if diffs and not why and stack is not None and all(stack - 18 <= a < stack - 14 for a in diffs):
+            # only the four bytes just below the documented 14 differ: a frame interrupt taken between the EI of the ROM's
+            # SA/LD-RET and the final RET to START (its handler then starts two bytes deeper) - known finding F19
+            return ('loadback-interrupt-window', desc, ['memory differs at %s (STACK-18..STACK-15)' % diffs[:4]])
         if diffs:
             why.append('memory differs at %s' % diffs[:4])
         if why:
@@ -272,6 +276,8 @@ def run(tier):
     seen = set()
     for b in bad:
         key = 'C12/%s' % b[0]
+        if b[0] == 'loadback-interrupt-window':
+            key = 'C12/loadback/stack-18..15-interrupt-before-final-RET'
         if key in seen:
             continue
         seen.add(key)
